@@ -71,6 +71,12 @@ func (p Poly) IsOne() bool {
 func (p Poly) IsConst() bool { return p.IsZero() || p.IsOne() }
 
 func Xor(a, b Poly) Poly {
+	if len(a) == 0 {
+		return b
+	}
+	if len(b) == 0 {
+		return a
+	}
 	out := make(Poly, len(a)+len(b))
 	for m := range a {
 		out[m] = struct{}{}
@@ -110,10 +116,28 @@ func And(a, b Poly) Poly {
 }
 
 func Not(a Poly) Poly   { return Xor(a, One()) }
-func Or(a, b Poly) Poly { return Xor(Xor(a, b), And(a, b)) }
+func Or(a, b Poly) Poly {
+	switch {
+	case a.IsZero():
+		return b
+	case b.IsZero():
+		return a
+	case a.IsOne() || b.IsOne():
+		return One()
+	}
+	return Xor(Xor(a, b), And(a, b))
+}
 
 // Mux returns c ? a : b.
-func Mux(c, a, b Poly) Poly { return Xor(b, And(c, Xor(a, b))) }
+func Mux(c, a, b Poly) Poly {
+	if c.IsOne() {
+		return a
+	}
+	if c.IsZero() {
+		return b
+	}
+	return Xor(b, And(c, Xor(a, b)))
+}
 
 func Equal(a, b Poly) bool {
 	if len(a) != len(b) {
